@@ -74,6 +74,6 @@ META = dict(
     note="Trusted: Lean kernel + propext/Classical.choice/Quot.sound; hand-written model tied by correspondence; theorems at ℝ. "
          "Not proved: IEEE finiteness (sampled by the oracle); bisection convergence across a bracket that straddles 0 °C holds only as the "
          "sign-change statement (the searched function jumps there).",
-    technique="Lean 4 proof (induction on bisection steps; rpow/log monotonicity; rational enclosures by exact integer powers; IVT) + differential correspondence model vs real code",
+    technique="Lean 4 proof (induction on bisection steps; rpow/log monotonicity; rational enclosures by exact integer powers; IVT) + differential correspondence model vs real code + model regenerated from the Go source on every run by a translator (gen_eq_* theorems tie it to the hand-written model) + inequality clauses re-proved for every monotone rounding (RNum)",
 )
 READY = True
